@@ -106,8 +106,12 @@ func genC19(r *Rng, tier string, idx int) *Plan {
 			if r.Chance(0.15) {
 				ns = "other-ns"
 			}
-			action := r.Pick([]string{"set", "set", "set", "set", "delete", "deleting", "remove-key", "empty"})
-			p.Ops = append(p.Ops, Op{ID: nid(), Kind: "secret", S: action, Args: map[string]string{"name": name, "ns": ns, "value": fmt.Sprintf("k8s-%s-%s-%d-%s", ns, name, i, r.Str(8))}})
+			action := r.Pick([]string{"set", "set", "set", "set", "delete", "deleting", "remove-key", "empty", "replace"})
+			args := map[string]string{"name": name, "ns": ns, "value": fmt.Sprintf("k8s-%s-%s-%d-%s", ns, name, i, r.Str(8))}
+			if r.Chance(0.3) {
+				args["immutable"] = "1" // (takes effect when this operation creates the object)
+			}
+			p.Ops = append(p.Ops, Op{ID: nid(), Kind: "secret", S: action, Args: args})
 			pending = append(pending, Op{Kind: "reconcile", Args: map[string]string{"name": name, "ns": ns}})
 			if r.Chance(0.6) {
 				deliver()
@@ -301,11 +305,25 @@ func c19Secret(w *World, op *Op) {
 	w.countFault("k8s-event:" + op.S)
 	w.logf("secret %s/%s %s", ns, name, op.S)
 	mk := func(data map[string][]byte) *corev1.Secret {
-		return &corev1.Secret{ObjectMeta: metav1.ObjectMeta{Namespace: ns, Name: name}, Data: data}
+		s := &corev1.Secret{ObjectMeta: metav1.ObjectMeta{Namespace: ns, Name: name}, Data: data}
+		if op.Args["immutable"] != "" {
+			t := true
+			s.Immutable = &t
+			w.countFault("k8s-secret-immutable")
+		}
+		return s
 	}
 	switch op.S {
-	case "set":
+	case "set", "replace":
 		if exists && !cur.DeletionTimestamp.IsZero() {
+			return
+		}
+		if exists && (op.S == "replace" || cur.Immutable != nil && *cur.Immutable) {
+			// an immutable Secret is rotated by deleting it and creating it again under the same name; both events
+			// may be coalesced into one reconcile request
+			_ = w.K8s.Delete(ctx, cur)
+			_ = w.K8s.Create(ctx, mk(map[string][]byte{"client-secret": []byte(val), "other": []byte("y")}))
+			w.countFault("k8s-secret-deleted-and-recreated")
 			return
 		}
 		if exists {
